@@ -250,7 +250,7 @@ func (t *tb) term1(v ssa.Value) aff {
 		var alts []string
 		var first aff
 		for i, e := range x.Edges {
-			if t.res != nil && !t.res.Exec[x.Block().Preds[i]] {
+			if t.res != nil && !t.res.edgeExec(x.Block().Preds[i], x.Block()) {
 				continue
 			}
 			a := t.term(e)
@@ -363,7 +363,7 @@ func (t *tb) sliceTerm(v ssa.Value) string {
 	case *ssa.Phi:
 		var alts []string
 		for i, e := range x.Edges {
-			if t.res != nil && !t.res.Exec[x.Block().Preds[i]] {
+			if t.res != nil && !t.res.edgeExec(x.Block().Preds[i], x.Block()) {
 				continue
 			}
 			alts = append(alts, t.sliceTerm(e))
